@@ -38,6 +38,13 @@ def step (line : String) : String :=
       let out := exportHistory o rs ex
       if out.isEmpty then "-" else ",".intercalate (out.map (fun r => hexOrDash r.1 ++ ":" ++ hexOrDash r.2))
     | _, _, _ => "bad-op"
+  | ["cmapenv", env, pkg, name] =>
+    -- env: `none` (CMAP_PATH not set) or hex (`-` = set to the empty string)
+    match (if env == "none" then some none else (bytesOfHex env).map some), bytesOfHex pkg, bytesOfHex name with
+    | some e, some pk, some n =>
+      let ps := cmapProbes (cmapDirs e pk) n
+      if ps.isEmpty then "-" else ",".intercalate (ps.map hexOrDash)
+    | _, _, _ => "bad-op"
   | ["cmap", dirs, name] =>
     match namesOf dirs, bytesOfHex name with
     | some ds, some n =>
